@@ -31,9 +31,10 @@ func (afs *osFS) OpenFile(path fs.RelPath, flag int, perms fs.Perms) (fs.File, e
 	if err != nil {
 		return nil, err
 	}
-	// open(2) follows a symlink in the last segment unless O_EXCL (or O_NOFOLLOW) is given; when it
-	// would, we have to resolve that link ourselves, or the kernel resolves it against the host root.
-	if flag&(os.O_EXCL|syscall.O_NOFOLLOW) == 0 {
+	// open(2) follows a symlink in the last segment unless O_CREAT|O_EXCL (or O_NOFOLLOW) is given -- O_EXCL
+	// alone is ignored; when it would, we have to resolve that link ourselves, or the kernel resolves it
+	// against the host root.
+	if flag&syscall.O_NOFOLLOW == 0 && flag&(os.O_CREATE|os.O_EXCL) != os.O_CREATE|os.O_EXCL {
 		if _, isLink, _ := afs.readlink(rpath); isLink {
 			rpath, err = afs.realpath(path, true)
 			if err != nil {
